@@ -223,6 +223,10 @@ type Check struct {
 	ThoroughS int
 }
 
+// ReplayHook, when set, sees every witness before the check's own Replay
+// function (witness families shared between checks).
+var ReplayHook func(prop string, raw json.RawMessage) (desc string, violates bool, handled bool)
+
 var registry = map[string]*Check{}
 
 func Register(c *Check) { registry[c.ID] = c }
@@ -807,7 +811,15 @@ func replayMain(args []string) {
 		fmt.Fprintf(os.Stderr, "no replay function for %s\n", r.Property)
 		os.Exit(2)
 	}
-	desc, bad := ck.Replay(r.Replay)
+	var desc string
+	var bad bool
+	handled := false
+	if ReplayHook != nil {
+		desc, bad, handled = ReplayHook(r.Property, r.Replay)
+	}
+	if !handled {
+		desc, bad = ck.Replay(r.Replay)
+	}
 	fmt.Println(desc)
 	if bad {
 		fmt.Printf("VIOLATION property=%s replay=%s\n", r.Property, args[0])
